@@ -33,6 +33,8 @@ Expected(ev) ==
          LET s == GlobalSum(ev.x) IN [c \in 1..Len(s) |-> s[c] * ev.qm]
 Verdicts(ev) ==
   IF ev.kind = "plain" THEN (IF ev.stock = 1 THEN <<>> ELSE <<"layer_without_quantizers_differs_from_stock_layer">>)
+  ELSE IF ev.kind = "strq" THEN        \* layer built from quantizer strings: get_quantizers() = the applied objects
+       (IF ev.applied_ok = 1 THEN <<>> ELSE <<"get_quantizers_is_not_what_is_applied">>)
   ELSE IF ev.kind = "rnn" THEN
        (IF ev.stock = 1 THEN <<>> ELSE <<"differs_from_stock_layer_with_quantized_weights">>)
        \o (IF ev.applied_ok = 1 THEN <<>> ELSE <<"quantizers_applied_out_of_pipeline_order">>)
